@@ -17,7 +17,7 @@ def sh(cmd, timeout=7200, env=None):
     return p.returncode, p.stdout.decode("utf-8", "replace")
 
 
-def one(d, tier, prop_override, workers):
+def one(d, tier, prop_override, workers, only=None):
     d = os.path.abspath(d)
     name = os.path.basename(d)
     prop = prop_override or name.split("-")[0]
@@ -30,7 +30,9 @@ def one(d, tier, prop_override, workers):
     else:
         env = dict(os.environ, VERIF_BUILD=bd, VERIF_REPLAY=rp, VERIF_JOBS=str(workers), VERIF_MEM_GB=str(6 * workers))
         t0 = time.time()
-        rc, o = sh("unshare -m bash -c 'mount --bind %s /repo && cd %s && ./check %s --tier %s --no-evidence'" % (wt, VERIF, prop, tier), env=env)
+        rc, o = sh("unshare -m bash -c 'mount --bind %s /repo && cd %s && ./check %s --tier %s --no-evidence%s'" % (wt, VERIF, prop, tier, (" --only \"%s\"" % only) if only else ""), env=env)
+        if only:
+            res["restricted_to_jobs_matching"] = only
         res["wall_s"] = round(time.time() - t0, 1)
         res["check_rc"] = rc
         res["violations"] = sorted(set(re.findall(r"^VIOLATION .*$", o, re.M)))[:20]
@@ -62,11 +64,12 @@ def main():
     ap.add_argument("-p", type=int, default=3)
     ap.add_argument("--tier", default="quick")
     ap.add_argument("--prop", default=None)
+    ap.add_argument("--only", default=None, help="restrict the check to the jobs matching this regex (faster confirmation; recorded in detect.json)")
     ap.add_argument("dirs", nargs="+")
     a = ap.parse_args()
     workers = max(2, 15 // a.p)
     with ThreadPoolExecutor(max_workers=a.p) as ex:
-        list(ex.map(lambda d: one(d, a.tier, a.prop, workers), a.dirs))
+        list(ex.map(lambda d: one(d, a.tier, a.prop, workers, a.only), a.dirs))
 
 
 main()
